@@ -494,8 +494,48 @@ fn run_case(case_seed: u64, r: &mut Report, args: &Args, only_image: Option<&str
     }
 }
 
+/// child mode for the strace leg: `child-ack <dir> <seed> <mode>`; writes "ACK <n>" to fd 1 right
+/// after every durable call that returned Ok (immediate mode) or after every successful sync()
+/// (batched / manual), so the tracer can check that the log was fsynced before the ack.
+fn child_ack(rest: &[String]) {
+    use std::io::Write;
+    let dir = Path::new(&rest[1]);
+    let seed: u64 = rest[2].parse().unwrap();
+    let mode = rest[3].as_str();
+    let mut rng = Rng::new(seed);
+    let mut wal_cfg = WalConfig::default();
+    match mode {
+        "batched" => wal_cfg.sync_mode = SyncMode::Batched { max_entries: 3 },
+        "manual" => wal_cfg.sync_mode = SyncMode::Manual,
+        _ => {}
+    }
+    let cfg = CaseCfg { wal_cfg: wal_cfg.clone(), mode: if mode == "immediate" { "immediate" } else { "batched" }, nkeys: 4, specials: false, rotation: false };
+    let store = TensorStore::open_durable(dir.join(WAL), wal_cfg).expect("open");
+    let mut wid = 0;
+    let mut out = std::io::stdout();
+    let mut n = 0;
+    for _ in 0..25 {
+        let op = gen_op(&mut rng, &cfg, &mut wid, true);
+        let acked = match &op {
+            Op::Put(k, d) => store.put_durable(k.clone(), d.clone()).is_ok() && mode == "immediate" && !k.starts_with("_cache:"),
+            Op::Delete(k) => store.delete_durable(k).is_ok() && mode == "immediate" && !k.starts_with("_cache:"),
+            Op::Sync => store.sync().is_ok(),
+            Op::Checkpoint => store.checkpoint(dir.join(SNAP)).is_ok(),
+        };
+        if acked {
+            n += 1;
+            let _ = out.write_all(format!("ACK {} {}\n", n, op.describe().split(' ').next().unwrap_or("")).as_bytes());
+            let _ = out.flush();
+        }
+    }
+}
+
 fn main() {
     let args = Args::parse();
+    if args.rest.first().map(|s| s.as_str()) == Some("child-ack") {
+        child_ack(&args.rest);
+        return;
+    }
     let started = Instant::now();
     quiet_panics();
     install_hooks();
